@@ -96,8 +96,10 @@ M("C02", "tag map entry broken", F, "version.py", "    'rc'  : 'rc',\n    'dev' 
 M("C02", "TAG regex gains unknown tag", F, "v2patterns.py", "r\"preview|final|dev|alpha|beta|post|rc\"", "r\"preview|final|dev|alpha|beta|gamma|post|rc\"", "TAG")
 M("C02", "week-0 truthiness returns (pre-fix shape)", F, "v2version.py", "    if all(val is None for val in parsed_vals):", "    if not any(parsed_vals) and not any((week_w, week_u)):", "boolean context")
 M("C02", "field constructor crossed", F, "v2version.py", "        week_w=cinfo.week_w,\n        week_u=cinfo.week_u,", "        week_w=cinfo.week_u,\n        week_u=cinfo.week_w,", "R4")
-M("C02", "BLD regex admits leading zero but renderer strips", S, "v2patterns.py", "('BLD'    , r\"[1-9][0-9]*\"),", "('BLD'    , r\"[0-9]+\"),")
-M("C02", "twin: [0-9] as \\d", S, "v2patterns.py", "('NUM'    , r\"[0-9]+\"),", "('NUM'    , r\"\\d+\"),")
+# (these two were listed as silent twins until the sweeps showed otherwise: a BLD that accepts `01005` lets the tag `1.01005` in as a
+#  version tag (Q0439, C09), and \d also matches non-ASCII digits (C04-r5v3) - both widen what is taken for a version)
+M("C02", "BLD regex admits leading zeros", F, "v2patterns.py", "('BLD'    , r\"[1-9][0-9]*\"),", "('BLD'    , r\"[0-9]+\"),", "documented shape")
+M("C02", "[0-9] spelled \\d (matches non-ASCII digits)", F, "v2patterns.py", "('NUM'    , r\"[0-9]+\"),", "('NUM'    , r\"\\d+\"),", "documented shape")
 M("C02", "twin: disjoint alternatives reordered", S, "v2patterns.py", "('0M'  , r\"1[0-2]|0[1-9]\"),", "('0M'  , r\"0[1-9]|1[0-2]\"),")
 M("C02", "twin: formatter via zfill", S, "v2patterns.py", "def _fmt_0m(month: FieldValue) -> str:\n    return f\"{int(month):02}\"", "def _fmt_0m(month: FieldValue) -> str:\n    return str(int(month)).zfill(2)")
 
@@ -357,9 +359,9 @@ M("C19", "pyproject template section renamed", F, "config.py", "DEFAULT_PYPROJEC
 M("C19", "toml template with INI boolean", F, "config.py", "pre_commit_hook = \"\"\npost_commit_hook = \"\"\ncommit = true\ntag = true\npush = true\n\n[bumpver.file_patterns]", "pre_commit_hook = \"\"\npost_commit_hook = \"\"\ncommit = True\ntag = true\npush = true\n\n[bumpver.file_patterns]", "DEFAULT_BUMPVER_TOML_BASE_TMPL")
 M("C19", "candidate missing", F, "config.py", "        path / \"bumpver.toml\",\n        path / \".bumpver.toml\",\n        path / \"pyproject.toml\",", "        path / \"bumpver.toml\",\n        path / \"pyproject.toml\",", "SUPPORTED_CONFIGS")
 M("C19", "initial version without build number", F, "config.py", "    return utils.now().strftime(\"%Y.1001-alpha\")", "    return utils.now().strftime(\"%Y-alpha\")", "initial version")
-M("C19", "preference requires only the section", F, "config.py", "            has_bumpver_section = (b\"bumpver]\" in data or b\"pycalver]\" in data) and b\"current_version\" in data", "            has_bumpver_section = b\"bumpver]\" in data or b\"pycalver]\" in data", "preference")
+M("C19", "preference requires only the section", F, "config.py", "            has_bumpver_section = (b\"bumpver]\" in data or b\"pycalver]\" in data) and b\"current_version\" in data", "            has_bumpver_section = b\"bumpver]\" in data or b\"pycalver]\" in data", "_pick_config_filepath")
 M("C19", "self snippet loses current_version", F, "config.py", "DEFAULT_TOML_BUMPVER_STR = \"\"\"\n\"bumpver.toml\" = [\n    'current_version = \"{version}\"',\n]", "DEFAULT_TOML_BUMPVER_STR = \"\"\"\n\"bumpver.toml\" = [\n    'version = \"{version}\"',\n]", "current_version pattern")
-M("C19", "fallback setup.cfg", F, "config.py", "    # fallback to creating a new bumpver.toml\n    return path / \"bumpver.toml\"", "    # fallback to creating a new bumpver.toml\n    return path / \"setup.cfg\"", "fallback")
+M("C19", "fallback setup.cfg", F, "config.py", "    # fallback to creating a new bumpver.toml\n    return path / \"bumpver.toml\"", "    # fallback to creating a new bumpver.toml\n    return path / \"setup.cfg\"", "_pick_config_filepath")
 
 # =============================================================================== C20
 M("C20", "legacy month regex 1-12 only unpadded", F, "v1patterns.py", "    'month'      : r\"(?:0[0-9]|1[0-2])\",", "    'month'      : r\"(?:1[0-2]|[1-9])\",", "month")
